@@ -1,5 +1,6 @@
 SPECIFICATION Spec
 CONSTANTS
+  KEYBYSENT = FALSE
   OORD <- c_OORD
   SORD <- c_SORD
   AORD <- c_AORD
